@@ -3,6 +3,7 @@ package main
 import (
 	"bytes"
 	"fmt"
+	"io"
 	"strings"
 
 	"github.com/ulikunitz/xz/lzma"
@@ -197,10 +198,34 @@ func checkC08(c *ev.Ctx) {
 		pendingSinceFlush := false
 		flushes := 0
 		pn := mon.Guard(func() {
+			// configuration lifecycle (by case index): literal; verified and used with other
+			// values before; Properties changed by the caller after NewWriter2 returned
+			var pv *lzma.Properties
+			switch i % 7 {
+			case 3:
+				final := cfg
+				cfg = lzma.Writer2Config{DictCap: 4096, Properties: &lzma.Properties{LC: 1, LP: 1, PB: 1}}
+				cfg.Verify()
+				if w0, err := cfg.NewWriter2(io.Discard); err == nil {
+					w0.Write([]byte("earlier stream"))
+					w0.Close()
+				}
+				cfg.Properties, cfg.DictCap, cfg.Matcher = final.Properties, final.DictCap, final.Matcher
+				if final.BufSize != 0 {
+					cfg.BufSize = final.BufSize
+				}
+			case 5:
+				v := *cfg.Properties
+				pv = &v
+				cfg.Properties = pv
+			}
 			w, err := cfg.NewWriter2(sink)
 			if err != nil {
 				viol("newwriter2-error", fmt.Sprintf("NewWriter2 failed for a configuration passing Verify: %v", err))
 				return
+			}
+			if pv != nil {
+				*pv = lzma.Properties{LC: (pv.LC + 1) % 3, LP: (pv.LP + 1) % 2, PB: (pv.PB + 2) % 5}
 			}
 			for ci, k := range hist {
 				before := len(sink.Buf)
